@@ -129,24 +129,33 @@ Proof. exact basic_records_tree_costs. Qed.
 Print Assumptions C08_recorded_costs_are_tree_costs.
 
 Theorem C08_recorded_costs_limit_with_stage :
-  forall T stats post score_basic score_limit cstats score_comp score_custom finish em o b tr,
+  forall T stats post score_basic score_limit cstats score_comp score_custom finish em ens o b tr,
   exact_opts o -> stages_of o <> [] ->
-  trial_fn T stats post score_basic score_limit cstats score_comp score_custom finish em ObjLimit o b = Ok tr ->
+  trial_fn T stats post score_basic score_limit cstats score_comp score_custom finish em (ObjLimit ens) o b = Ok tr ->
   tr = failed_trial \/ describes T stats tr.
 Proof. exact limit_records_tree_costs. Qed.
 Print Assumptions C08_recorded_costs_limit_with_stage.
 
-(* FINDING limit-objective-keyerror: with LimitObjective and no post-processing the statement is
-   false of the faithful model -- the dict has no "flops" and _maybe_report_result raises KeyError
-   (report = None).  Replayed on /repo every run (probe:limit). *)
+(* FINDING limit-objective-keyerror: LimitObjective.__call__ as pinned (ensures = false) and no
+   post-processing: the statement is false of the faithful model -- the dict has no "flops" and
+   _maybe_report_result raises KeyError (report = None).  Replayed on /repo every run (probe:limit). *)
 Theorem C08_recorded_costs_limit_refuted :
   forall T stats post score_basic score_limit cstats score_comp score_custom finish em (t : T),
   exists tr,
-    trial_fn T stats post score_basic score_limit cstats score_comp score_custom finish em ObjLimit
+    trial_fn T stats post score_basic score_limit cstats score_comp score_custom finish em (ObjLimit false)
              (mkOpts false false false false false) (Ok t) = Ok tr /\
     t_flops tr = None /\ forall mts st s, report T mts st s tr = None.
 Proof. exact limit_without_stage_has_no_costs. Qed.
 Print Assumptions C08_recorded_costs_limit_refuted.
+
+(* with the proposed patch (ensures = true) LimitObjective behaves like the other objectives *)
+Theorem C08_recorded_costs_limit_patched :
+  forall T stats post score_basic score_limit cstats score_comp score_custom finish em o b tr,
+  exact_opts o ->
+  trial_fn T stats post score_basic score_limit cstats score_comp score_custom finish em (ObjLimit true) o b = Ok tr ->
+  tr = failed_trial \/ describes T stats tr.
+Proof. exact limit_fixed_records_tree_costs. Qed.
+Print Assumptions C08_recorded_costs_limit_patched.
 
 (* original_flops/write/size are those of the path finder's tree whatever ran afterwards *)
 Theorem C08_originals_are_base_costs : forall T stats post s ss t tr',
